@@ -211,6 +211,12 @@ def run_attr_case(case):
             except Exception as e:  # noqa: BLE001
                 real = ("raise", type(e))
             # ---- expectation
+            if syn == "attr" and kc == "protected" and "protected_nonattr_get" in case.get("excl", ()):
+                try:
+                    object.__getattribute__(node, k)
+                except AttributeError:
+                    # known finding K4: a protected name without attribute reads the data
+                    continue
             if syn == "attr" and kc == "protected":
                 # (only get is generated) must be the object's own attribute
                 if op != "get":
@@ -505,8 +511,13 @@ def run_shard(spec, seed, tier, active):
 
     n = 400 if tier == "quick" else 3000
 
+    from ..runner import excl_of
+    excl = excl_of(active)
+
     def one_b(data):
         case = _draw_attr_case(data.draw, ci.name)
+        if excl:
+            case["excl"] = excl
         try:
             run_attr_case(case)
         except Mismatch as mm:
